@@ -379,6 +379,31 @@ pub fn run(r: &mut Runner) -> &'static str {
         }
         Ok(())
     });
+    // the first CR far into the input: at every offset 65536 - 3 ..= 65536 + 110 (and around 2 * 65536) behind a line start and
+    // padding - an offset kept in 16 bits comes out as a position inside a short line
+    let far = |shard: usize, n: usize, st: &mut Stats, _stop: &std::sync::atomic::AtomicBool| -> Option<(Vec<u8>, Fail)> {
+        let mut idx = 0usize;
+        for base in [65_536usize, 131_072] {
+            for k in (0..=113usize).step_by(1) {
+                for head in [&b"PROXY UNKNOWN"[..], b"PROXY TCP4 192.0.2.1 198.51.100.7 51234 443", b""] {
+                    idx += 1;
+                    if idx % n.max(1) != shard || (base == 131_072 && k % 8 != 0) {
+                        continue;
+                    }
+                    let at = base + k - 3;
+                    let mut x = head.to_vec();
+                    x.resize(at, b' ');
+                    x.extend_from_slice(b"\r\nGET / HTTP/1.1\r\n");
+                    st.class("first-cr-beyond-64KiB");
+                    if let Err(f) = judge_agree(&x, st) {
+                        return Some((x, f));
+                    }
+                }
+            }
+        }
+        None
+    };
+    r.bulk("c16.far-cr", Some("the first CR at every offset 65533..=65646 (and every 8th around 131072) behind 3 line starts and blank padding"), &far, &|x: &Vec<u8>, st: &mut Stats| judge_agree(x, st));
     let n = r.n(100_000, 2_000_000);
     r.random("c16.owned", n, 200, &gen_owned, &judge_owned);
     "exploration"
